@@ -221,6 +221,8 @@ class FD:
         bt = getattr(_b, e.id, None)
         if isinstance(bt, type) and issubclass(bt, BaseException):
             return bt     # builtin exception classes are data for handler matching / isinstance hooks
+        if e.id in _BUILTINS:
+            return _BUILTINS[e.id]     # a modelled builtin used as a value (key=len)
         raise Inconclusive('fdeval: unbound name %s' % e.id)
 
     def module_name(self, name):
@@ -281,6 +283,25 @@ class FD:
             b = self.sym.lookup(self._mods[-1].name, d.split('.')[0])
             if b is not None and b.kind == 'import' and b.target in ('operator', 're', 'math', 'ast', 'sys'):
                 d = b.target + '.' + e.attr
+        if d is not None and d.count('.') == 1 and self.sym is not None and self._mods and self._mods[-1] is not None \
+                and d.split('.')[0] not in env:
+            # ClassName.attr for a pedal class: the class-level assignment, evaluated in the class's module
+            from .symbols import ClassInfo as _CI
+            try:
+                ci = self.sym.resolve_name(self._mods[-1], d.split('.')[0])
+            except Exception:
+                ci = None
+            if isinstance(ci, _CI):
+                for k in self.sym.mro(ci):
+                    expr = k.attrs.get(e.attr)
+                    if expr is not None:
+                        self._mods.append(k.module)
+                        try:
+                            return self.eval(expr, {})
+                        except Inconclusive:
+                            break
+                        finally:
+                            self._mods.pop()
         if d is not None and d.startswith('ast.') and d.count('.') == 1 and 'ast' not in env:
             import ast as _ast
             if isinstance(getattr(_ast, e.attr, None), type):
